@@ -386,7 +386,17 @@ func scReplayCommon(c *scCase) Verdict {
 }
 
 func scCommonRow(c *scCase, cls benchunit.Class, vals []float64, concrete string) Verdict {
+	given := append([]float64(nil), vals...)
 	sc := benchunit.CommonScale(vals, cls)
+	// the caller goes on to format each value of its slice with the shared scale
+	for i := range given {
+		if math.Float64bits(given[i]) != math.Float64bits(vals[i]) {
+			v := fail("common-scale-changes-the-callers-values", "%s: value %d of the caller's slice is %v afterwards, was %v", concrete, i, vals[i], given[i])
+			v.Concrete = concrete
+			copy(vals, given)
+			return v
+		}
+	}
 	if c.Min.Q == 0 {
 		o := sc.Format(0)
 		p, ok := scParse(o)
